@@ -18,6 +18,7 @@ from ..dataflow import guards_of, parent_map
 from ..facts import ShapeError, call_name, calls_in, dotted, kwarg, norm, walk_no_nested
 from ..tables import Inst, Opaque, Sym, decide
 from .hoist_rules import Hoister, hoist_mask_rule
+from .pairing_rules import analysis_pairing
 
 T = 'fpy2/transform/'
 OVERFLOW = T + 'unfold_overflow.py'
@@ -459,6 +460,7 @@ def f3_rebuild_parameters(ctx: Ctx):
 RULES = [
     Rule('C10.T3', 'float-to-fixed: the overflow policy is accepted only when both overflow probes show it', t3_overflow_policy, 1, 'T'),
     Rule('C10.F3', 'a rebuilt format / context receives every carried-over parameter under its own name (no swapped or shifted arguments)', f3_rebuild_parameters, 30, 'F'),
+    Rule('C10.P2', 'an analysis handed to a lowering rewriter along with a function is the analysis of that function', analysis_pairing((T + 'float_to_fixed.py', T + 'unfold_overflow.py', T + 'unfold_special.py', T + 'unfold_neg_zero.py', T + 'round_elim.py', T + 'round_insert.py', T + 'rescale_fixed.py'), 10), 10, 'P'),
     Rule('C10.T1', 'overflow unfolding: emitter and verifier use the same (operand, comparator, threshold) pairs; strict for maxval, non-strict for infval', t1_threshold_pairing, 13, 'T,F'),
     Rule('C10.X1', 'block rewriters refuse what they cannot reproduce: unknown context first, class ladders end in Declined', x1_refusal_defaults, 30, 'X,P'),
     Rule('C10.F2', 'random bits are forwarded or stochastic sources refused wherever a context is rebuilt', f2_random_bits, 6, 'F,P'),
@@ -471,6 +473,8 @@ RULES = [
 from ..selftest import Mutant  # noqa: E402
 
 MUTANTS = [
+    Mutant('overflow-sites-classified-on-another-function', T + 'unfold_overflow.py', "        class_info = ValueClassInfer.analyze(func)\n        return _UnfoldOverflowInstance(func, eval_info, class_info).list_sites(within)",
+           "        class_info = ValueClassInfer.analyze(func)\n        return _UnfoldOverflowInstance(Simplify.apply(func), eval_info, class_info).list_sites(within)", 'C10.P2'),
     Mutant('saturation-read-off-one-probe', F2F, "        if pos.as_real() == maxval and neg.as_real() == neg_maxval:", "        if pos.as_real() == maxval:", 'C10.T3', 'seeded change C10b'),
     Mutant('infinite-policy-ignores-negative-side', F2F, "    if pos.isinf and neg.isinf and not pos.s and neg.s:", "    if pos.isinf and not pos.s:", 'C10.T3'),
     Mutant('nan-policy-either-side', F2F, "    if pos.isnan and neg.isnan:", "    if pos.isnan or neg.isnan:", 'C10.T3'),
